@@ -46,6 +46,20 @@ var nativePkgs = native.Packages{
 		"ES":       reflect.TypeOf(tp.ES{}),
 		"NewErr":   tp.NewErr,
 		"Pair":     tp.Pair,
+		// the type-identity matrix (identity.go): unnamed interface types through alias names, and
+		// a type with methods for method values and method expressions
+		"IM":   reflect.TypeOf((*tp.IM)(nil)).Elem(),
+		"IN":   reflect.TypeOf((*tp.IN)(nil)).Elem(),
+		"IMN":  reflect.TypeOf((*tp.IMN)(nil)).Elem(),
+		"INM":  reflect.TypeOf((*tp.INM)(nil)).Elem(),
+		"IMO":  reflect.TypeOf((*tp.IMO)(nil)).Elem(),
+		"IMNO": reflect.TypeOf((*tp.IMNO)(nil)).Elem(),
+		"IMi":  reflect.TypeOf((*tp.IMi)(nil)).Elem(),
+		"IMr":  reflect.TypeOf((*tp.IMr)(nil)).Elem(),
+		"IMv":  reflect.TypeOf((*tp.IMv)(nil)).Elem(),
+		"IMs":  reflect.TypeOf((*tp.IMs)(nil)).Elem(),
+		"IMe":  reflect.TypeOf((*tp.IMe)(nil)).Elem(),
+		"MT":   reflect.TypeOf(tp.MT{}),
 	}},
 }
 
